@@ -130,6 +130,25 @@ def main():
 
     # known findings filter
     kf = [k for k in known.get("findings", []) if k["property"] == pid]
+    # findings recorded with a concrete witness (deviations the contracts spell out as the code's
+    # actual behaviour, or exclusions of a proved lemma): replay the witness on the real code
+    wit = [k for k in kf if k.get("replay")]
+    if wit:
+        import shutil
+        s_ = engine.scratch_root()
+        try:
+            engine.copy_repo(s_)
+            b_ = engine.build_replay(s_)
+            for k in wit:
+                rc, so, se = engine.replay(b_, *k["replay"])
+                if so == k.get("observed"):
+                    print("KNOWN-FINDING: property=%s %s -- %s [witness %s -> %s; the property asks for %s]" % (pid, k["obligation"], k.get("what", ""), " ".join(k["replay"]), so, k.get("expected")))
+                else:
+                    print("NOTE: listed finding %s no longer reproduces (witness now gives %r)" % (k["obligation"], so or se))
+        except Exception as e:
+            undecided.append({"what": "could not replay the witnesses of the listed findings: %s" % e})
+        finally:
+            shutil.rmtree(s_, ignore_errors=True)
     real = []
     for v in violations:
         hit = None
@@ -142,6 +161,8 @@ def main():
             real.append(v)
     # a listed finding that no longer fails is just reported as such (not an alarm)
     for k, v in known_hits:
+        if k.get("replay"):
+            continue
         print("KNOWN-FINDING: property=%s %s -- %s" % (pid, k["obligation"], k.get("what", "")))
 
     # evidence
